@@ -15,6 +15,7 @@ func init() {
 			"client ids / scopes / callback URIs with reserved characters, requested URLs with reserved and non-ASCII bytes and a separate query field; every 302 answer is checked; " +
 			"distinct_nontrivial = distinct projected traces reaching a token exchange or write"
 		runHistories(c, 13, histProfile{N: n, MinLen: 6, MaxLen: 30, FaultRate: 5, AttackRate: 10, Stores: []string{"memory", "redis"}}, nil)
+		loadedScopes(c)
 	}
 	props["C15"] = func(c *Ctx) {
 		n := 500
